@@ -1,6 +1,7 @@
 package main
 
 import (
+	sdk "github.com/cosmos/cosmos-sdk/types"
 	"bufio"
 	"encoding/json"
 	"flag"
@@ -93,6 +94,12 @@ func main() {
 			accs, bal := stdAccounts(16)
 			np := DefaultNodeParams()
 			np.FishmenInfo = accs[4].Bech() + "," + accs[2].Bech()
+			if rng.Intn(3) == 0 {
+				// a third of the worlds mint the full block reward (pledges are far below the default baseline otherwise,
+				// and the APY-limited reward truncates to nothing): claims then pay block rewards, net of collateral debt
+				np.Baseline = sdk.NewInt64Coin(Denom, 1)
+				np.BlockReward = sdk.NewInt64Coin(Denom, []int64{1000, 1000000}[rng.Intn(2)])
+			}
 			c, err := NewChain(GenesisSpec{Accounts: accs, Balances: bal, NodeParams: np, ValidatorIdx: []int{0}, ValSelfBond: 1000000, StreamW: streamW}, time.Unix(1700000000, 0))
 			if err != nil {
 				panic(err)
